@@ -427,6 +427,10 @@ func finish(w *World, ev *Evidence, results []*harnessResult, kf *knownFindings,
 		for _, m := range ev.TraceMismatches {
 			fmt.Println("TOOL-ERROR: trace mismatch:", m)
 		}
+		if exit == 1 {
+			// a natively reproduced violation stands whatever else went wrong in this run
+			return 1
+		}
 		return 2
 	}
 	if exit == 0 {
